@@ -387,3 +387,10 @@ for pid in ('C15', 'C16', 'C03'):
         PROPS[pid]['mir']['thorough'].append(mrun(HEAP, nmax=3))
     PROPS[pid]['bounds'] += ' M (heap.*): try_from_vec / try_from_boxed_slice for ALL N, source lengths L and capacities CAP >= L: Ok iff L == N, the same block re-boxed under the layout of N elements (a buffer with spare capacity is shrunk first; a pointer taken before the shrink is stale), a refused source dropped once and freed.'
 PROPS['C15']['technique'] = PROPS['C15'].get('technique', 'bounded model checking with Kani/CBMC') + ' + symbolic execution of rustc MIR with z3 for the re-boxing conversions (Vec / Box<[T]> by contract; all N, L, CAP)'
+
+# fifth round: an overridden clone_from (C04); C05 also runs the fold family (an element destructor that panics inside the closure is a panic
+# of caller code at that call)
+for tier in ('quick', 'thorough'):
+    PROPS['C04']['mir'][tier].append(mrun(['clone_from'], nmax=3 if tier == 'quick' else 6))
+    if tier in PROPS['C05']['mir']:
+        PROPS['C05']['mir'][tier].append(mrun(['iter.fold', 'iter.rfold', 'fold', 'map', 'zip'], nmax=3))
